@@ -59,6 +59,7 @@ type vHookBeC38 struct {
 	plan        []string // per inner Load: "", "error", "partial-error", "after:remove-file", "after:clear", "after:remove-dir", "after:truncate"
 	calls       int
 	errors      int
+	partials    int // downloads broken off after half the body (subset of errors)
 	fired       int
 	dirRemoved  bool
 	truncatedTo map[backend.Handle]int
@@ -77,6 +78,9 @@ func (b *vHookBeC38) Load(ctx context.Context, h backend.Handle, length int, off
 	b.calls++
 	if act == "error" || act == "partial-error" {
 		b.errors++
+	}
+	if act == "partial-error" {
+		b.partials++
 	}
 	b.mu.Unlock()
 	if act == "error" {
@@ -269,6 +273,7 @@ func TestVerifC38Backend(t *testing.T) {
 		var classes []string
 		addClass := func(s string) { classes = append(classes, s) }
 		// judge returns a violation text or ""
+		partialDuring := false // set for a group of concurrent loads during which a download broke off
 		judge := func(l *vLoadC38, errorsDuring bool) string {
 			f := l.f
 			n := len(f.data)
@@ -305,6 +310,15 @@ func TestVerifC38Backend(t *testing.T) {
 					addClass("be:to-EOF-load-from-truncated-cache-copy")
 					return ""
 				}
+				// the same for the short moment in which a download that is breaking off has already
+				// renamed its (half) file into the cache and cacheFile has not yet removed it again: a
+				// CONCURRENT to-EOF load may be served from it and end early (the repository level's
+				// hash check is what catches content damage of cached files). A load that starts after
+				// the failed download has returned must not see that copy - that stays a violation.
+				if partialDuring && l.length == 0 && len(l.got) < len(want) && bytes.Equal(l.got, want[:len(l.got)]) {
+					addClass("be:to-EOF-load-concurrent-with-broken-off-download")
+					return ""
+				}
 				return fmt.Sprintf("%s delivered %d bytes that are not that range (want %d bytes; equals whole file: %v)", desc, len(l.got), len(want), bytes.Equal(l.got, f.data))
 			}
 			// failed
@@ -334,6 +348,7 @@ func TestVerifC38Backend(t *testing.T) {
 		for i := 0; i < nOps && violation == ""; i++ {
 			hook.mu.Lock()
 			errBefore, firedBefore := hook.errors, hook.fired
+			partialsBefore := hook.partials
 			hook.mu.Unlock()
 			switch rapid.SampledFrom([]string{"load", "load", "load", "load", "concurrent", "concurrent", "save", "remove"}).Draw(t, "op") {
 			case "load":
@@ -368,6 +383,7 @@ func TestVerifC38Backend(t *testing.T) {
 				wg.Wait()
 				hook.mu.Lock()
 				errDuring, firedDuring := hook.errors > errBefore, hook.fired > firedBefore
+				partialDuring = hook.partials > partialsBefore
 				hook.mu.Unlock()
 				addClass("be:concurrent-loads-of-one-handle")
 				if errDuring {
@@ -382,6 +398,7 @@ func TestVerifC38Backend(t *testing.T) {
 						violation = fmt.Sprintf("%s (one of %d concurrent loads)", v, g)
 					}
 				}
+				partialDuring = false
 			case "save":
 				k := fileKinds[rapid.IntRange(0, len(fileKinds)-1).Draw(t, "kind")]
 				f := newFile(k.tpe, k.meta, genSize())
